@@ -406,6 +406,22 @@ func randomLimitVerdict(c *Ctx, info *types.Info, fd *ast.FuncDecl, call *ast.Ca
 	if len(env.problems) > 0 {
 		return "", "the governing conditions are outside the integer fragment"
 	}
+	// a length is never negative
+	lens := map[string]bool{}
+	for _, f := range append(append([]*F{}, facts...), le(lv.Lin, k(0))) {
+		for _, cube := range dnf(f) {
+			for _, atom := range cube {
+				for sname := range atom.C {
+					if strings.HasPrefix(sname, "val:len(") && !lens[sname] {
+						lens[sname] = true
+					}
+				}
+			}
+		}
+	}
+	for sname := range lens {
+		facts = append(facts, ge(linSym(sname), k(0)))
+	}
 	all := and(append(facts, le(lv.Lin, k(0)))...)
 	sat, decided := satF(env.base, all)
 	if !decided {
